@@ -5,6 +5,7 @@
 -/
 import IppModel.Spec.Requests
 import IppModel.Lemmas.SMapBasic
+import IppModel.Lemmas.Builders
 namespace Ipp.Props.C10
 open Ipp Ipp.Gen Ipp.Spec
 
@@ -29,13 +30,13 @@ theorem names_pin :
 theorem calls_fold_to_summary (calls : List Call) :
     let b := BState.run calls
     let sm := summary calls
-    b.user = sm.user ∧ b.title = sm.title ∧ b.attrs = sm.jobAttrs ∧ b.isLast = sm.last ∧ b.requested = sm.requested := by
-  sorry
+    b.user = sm.user ∧ b.title = sm.title ∧ b.attrs = sm.jobAttrs ∧ b.isLast = sm.last ∧ b.requested = sm.requested :=
+  Builders.run_eq_summary calls
 
 /-- Every builder yields exactly the request its arguments describe. -/
 theorem build_eq_spec (k : OpKind) (uri : Uri) (jobId : UInt32) (payload : Bytes) (calls : List Call) :
-    buildOp k uri jobId (if hasPayload k then payload else []) calls = request k uri jobId payload (summary calls) := by
-  sorry
+    buildOp k uri jobId (if hasPayload k then payload else []) calls = request k uri jobId payload (summary calls) :=
+  Builders.build_eq_spec names_pin op_codes_pin k uri jobId payload calls
 
 /-- the raw request constructor: charset, language, canonical printer-uri when a target is given, nothing else -/
 theorem new_request_spec (ver : UInt16) (op : Operation) (uri : Option Uri) :
@@ -46,8 +47,8 @@ theorem new_request_spec (ver : UInt16) (op : Operation) (uri : Option Uri) :
          (match uri with
           | some u => [(N.printer_uri, .str .uri (renderUri (canonUri u)))]
           | none => [])) []⟩] ∧
-    (newRequest ver op uri).payload = [] := by
-  sorry
+    (newRequest ver op uri).payload = [] :=
+  Builders.new_request_spec names_pin ver op uri
 
 /-- the raw response constructor -/
 theorem new_response_spec (ver : UInt16) (st : StatusCode) (id : UInt32) :
@@ -55,7 +56,7 @@ theorem new_response_spec (ver : UInt16) (st : StatusCode) (id : UInt32) :
     (newResponse ver st id).groups =
       [⟨.OperationAttributes, sinsertAll
         [(N.attributes_charset, .str .charset N.utf8), (N.attributes_natural_language, .str .naturalLanguage N.en)] []⟩] ∧
-    (newResponse ver st id).payload = [] := by
-  sorry
+    (newResponse ver st id).payload = [] :=
+  Builders.new_response_spec names_pin ver st id
 
 end Ipp.Props.C10
